@@ -167,6 +167,16 @@ func (e *robustEnv) template(name string) interface{} {
 			"payload": map[string]interface{}{"deltaHash": "EiA", "updateKey": jwkMap(e.signer.JWK)}}
 	case "jwk":
 		return jwkMap(e.signer.JWK)
+	case "escapes":
+		return map[string]interface{}{"a\x01\x1f": "\x02<>&\x1e\u2028", "\x7f": []interface{}{"\x00", "\x0b\x0c", map[string]interface{}{"<&>": "\x03"}}, "plain": "\u00e9\U0001f600"}
+	case "jwk_ed":
+		ed := e.conc.pool.Get("ed", "robust-ed")
+
+		return map[string]interface{}{"kty": "OKP", "crv": "Ed25519", "x": ed.JWK.X}
+	case "jwk_k1":
+		k1 := e.conc.pool.Get("k1", "robust-k1")
+
+		return map[string]interface{}{"kty": "EC", "crv": "secp256k1", "x": k1.JWK.X, "y": k1.JWK.Y}
 	case "document":
 		return map[string]interface{}{
 			"publicKey":   []interface{}{e.cenv.keyJSON(CEnt{1, 1}), e.cenv.keyJSON(CEnt{2, 2})},
@@ -610,8 +620,23 @@ func (e *robustEnv) call(ep, template string, input interface{}) (outcome string
 		_, err := jwsutil.VerifyJWS(asString(input), e.signer.JWK)
 
 		return res(err)
+	case "ParseJWK":
+		var k jwsutil.JWK
+
+		return res(k.UnmarshalJSON(raw))
 	case "MarshalCanonical":
 		_, err := canonicalizer.MarshalCanonical(raw)
+
+		// every prefix of the text, each in a buffer of exactly its size (a text may end anywhere, also inside an escape)
+		if template == "escapes" && len(raw) < 800 {
+			for n := 1; n < len(raw); n++ {
+				exact := make([]byte, n)
+				copy(exact, raw[:n])
+
+				_, _ = canonicalizer.MarshalCanonical(exact)
+			}
+		}
+
 		return res(err)
 	case "PatchFromBytes":
 		_, err := patch.FromBytes(raw)
